@@ -9,7 +9,7 @@ CHECKS=${@:-$P}
 cd "$WT" || exit 2
 git diff -- . ':!seed_demo*' > $(dirname $WT)/$P.patch
 [ -s $(dirname $WT)/$P.patch ] || { echo "no diff in $WT"; exit 2; }
-/verif/tools/confirm_seed.sh "$WT" "$WT/seed_demo.sh" 2>&1 | tail -15
+[ -n "${SKIP_CONFIRM:-}" ] || /verif/tools/confirm_seed.sh "$WT" "$WT/seed_demo.sh" 2>&1 | tail -15
 ISO=$(mktemp -d /tmp/vtrial-$P-XXXX)
 rsync -a --exclude build --exclude .git /verif/ $ISO/
 sed -i "s#=> /repo#=> $WT#" $ISO/harness/go.mod
